@@ -5,7 +5,11 @@ from ..framework import Exploration, Violation
 from ..gen import progs
 
 ASSUMPTIONS = ["programs are generated from the operator/kind/value-class table of harness/gen/progs.py; "
-               "the direct oracle evaluates A*B-C mod p for every constraint recorded by the real backend"]
+               "the direct oracle evaluates A*B-C mod p for every constraint recorded by the real backend",
+               "guarded regions whose conditions are all true with ordering comparisons / check_positive (default and explicit width) whose "
+               "internal difference has exactly bitlength, bitlength+1, bitlength+2 bits or is -2^bitlength "
+               "(gen/progs.py wide_compare_guarded_case): nothing checks a constraint under a guard, so a run that goes on must have "
+               "recorded a witness that satisfies it; from_bits on lists of secrets with values outside {0,1} (from_bits_digits_case)"]
 LEVELS = "VSW"
 BACKENDS = [("snarkjs", common.BN128, 0.61), ("zkinterface", common.BN128, 0.13), ("zkifbellman", common.BLS381, 0.13),
             ("zkifbulletproofs", common.ED25519, 0.13)]
@@ -27,7 +31,9 @@ def explore(ctx, extended=False, focus=None):
     n = ctx.n(2400, 60000) if not extended else ctx.n(12000, 60000)
     from ..propsbase import corpus_cases, execute_all
     mix = [(5, progs.op_case), (1, progs.unop_case), (2, progs.method_case), (1, progs.ite_case), (2, progs.chain_case),
-           (3, progs.guarded_case), (1, progs.array_case)]
+           (3, progs.guarded_case), (1, progs.array_case),
+           # comparisons whose internal difference sits on the width boundary of check_positive, under (mostly) all-true guards
+           (1, progs.wide_compare_guarded_case), (1, progs.from_bits_digits_case)]
     recs = []
     # every loadable backend field: the in-memory backends all record (pubvals, privvals, constraints)
     for be, p, share in BACKENDS:
